@@ -52,6 +52,10 @@ def held_exit_obligation(ctx, R, f, paths):
                     g = p.guards.get(v[1])
                     if g and g[2] == "live" and g[0]:
                         owned.add(g[0])
+                    # a part of a guard-family result (`match guard() { Ok(g) => .., Err(e) => e.into_inner() }`)
+                    for gid, g2 in p.guards.items():
+                        if v[1].startswith(gid + ".") and g2[2] == "live" and g2[0]:
+                            owned.add(g2[0])
                     # an argument (or part of one) handed back unchanged keeps its pre-held locks
                     for r in held:
                         if r.startswith(v[1] + "."):
